@@ -37,7 +37,7 @@ claim("C14", "DESIGN.md §3 C14",
       "static analysis: must-pass-through/dominance on go/cfg, who-may-call over resolved callees, lock-held analysis for a guarded-field table with helper inference, field coverage of hash arguments")
 
 claim("C15", "DESIGN.md §3 C15",
-      "For every fault assignment: the five failover loops range over fg.servers in configured order, move to the next upstream only across the 'unavailable' edge, return errors as is (wrapped) with the group's strictness; classification tables (decodeErrorType identity, IsUnavailableError, 4xx/5xx fallbacks, stream failures) agree with their documented meaning; problemFromError maps unavailability to Warning (Bug only when required) and never to the caller's severity; at all API call sites in internal/checks the result is dereferenced only where err is nil or the result non-nil, and the failure region builds problems only through problemFromError(err).",
+      "For every fault assignment: the five failover loops range over fg.servers in configured order, move to the next upstream only across the 'unavailable' edge, return errors as is (wrapped) with the group's strictness; classification tables (decodeErrorType identity, IsUnavailableError, 4xx/5xx fallbacks, stream failures) agree with their documented meaning; problemFromError maps unavailability to Warning (Bug only when required) and never to the caller's severity; at all API call sites in internal/checks the result is dereferenced only where err is nil or the result non-nil, and the failure region builds problems only through problemFromError(err); the query cache stores successes only and its keys name the upstream URI (an answer or failure of one upstream is never served for another).",
       SA_NOTE,
       "static analysis: loop-continuation reachability with cut edges on go/cfg, constant table extraction, nil/err dominance at every resolved API call site (helpers that return the API error included)")
 
@@ -47,7 +47,7 @@ claim("C10", "DESIGN.md §3 C10",
       "static analysis: must-pass-through and dominance on go/cfg over the reader's three functions, who-may-write on the buffer field, lexical guard analysis")
 
 claim("C17", "DESIGN.md §3 C17",
-      "For all comment populations and budgets (single round): Create is unreachable within the iteration in which IsEqual held and is dominated by CanCreate(created); every successful Create is counted before the next pending comment and the counter has one writer; Delete is unreachable after a true IsEqual and dominated by CanDelete; both phases scan the same makeComments list; each platform's IsEqual lets path, line and text of both sides influence the result and CanCreate is n < maxComments; the summary is posted on every success path and Delete errors are collected. Convergence over rounds is not decided.",
+      "For all comment populations and budgets (single round): Create is unreachable within the iteration in which IsEqual held and is dominated by CanCreate(created); every successful Create is counted before the next pending comment and the counter has one writer; Delete is unreachable after a true IsEqual and dominated by CanDelete; both phases scan the same makeComments list; each platform's IsEqual lets path, line and text of both sides influence the result and CanCreate is n < maxComments; the summary is posted on every success path and Delete errors are collected; the reports reach the commenters in a total order (comparator key set), so the comment text does not depend on worker arrival order. Convergence over rounds is not decided.",
       SA_NOTE,
       "static analysis: within-iteration reachability on go/cfg (loop head blocked), dominance, field-influence on the sibling IsEqual implementations")
 
